@@ -1442,6 +1442,9 @@ class GroupByCumulativeFinalizer(Expr, GroupByBase):
                 self.aggregate,
                 self.initial,
             )
+            if is_series_like(self._meta) and self._meta.name is None:
+                # A Series without a name travelled as column ``0`` of a frame
+                dsk[(self._name, i)] = (M.rename, dsk[(self._name, i)], None)
         return dsk
 
 
